@@ -5,5 +5,6 @@ CONSTANTS
   DEV_NoReindexOnNetworkTR = FALSE
   DEV_NoInvalidateCycle = FALSE
   DEV_MergeRebuildOnlyIfAll = FALSE
+  DEV_SetterSkipsSameObject = FALSE
 VIEW View
 INVARIANT InvFresh
